@@ -3,18 +3,32 @@ _sha1 = ["src/lib/hash/bundled/sha1/sha1.c"]
 _inc = ["-I", "/repo/src/lib/hash/bundled/sha2", "-I", "/repo/src/lib/hash/bundled/sha1", "-DV_NO_PRIVATE"]
 def T1(name, srcs, what, fns, **kw):
     return dict(file="C18.c", name=name, function=name, repo_srcs=srcs, models=[], defines=_inc + ["-DH_" + name], unwind=130,
-                solver="cvc5plain", what=what, bounds="one block, symbolic chaining value and block (all 2^768 / 2^1536 inputs)", functions=fns, timeout=900, **kw)
-def T2(name, fn, srcs, rb, lmax, prior, what, fns, tiers=("quick", "thorough"), **kw):
-    return dict(file="C18.c", name=name, function=fn, repo_srcs=srcs, remove_bodies=rb, models=[],
-                defines=_inc + ["-DH_" + fn, "-DLMAX=%d" % lmax, "-DPRIORMAX=%s" % prior], unwind=max(lmax, 128) + 2,
-                what=what, bounds="message length 0..%d, every split into three update calls, 0..%s whole blocks absorbed before" % (lmax, prior),
+                solver="default", what=what, bounds="one block, symbolic chaining value and block (all 2^768 / 2^1536 inputs)", functions=fns, timeout=900, **kw)
+def T2(fn, srcs, rb, L, prior, what, fns, tiers=("quick", "thorough"), suffix="", **kw):
+    lmax = max(L, 1)
+    return dict(file="C18.c", name="%s-L%d%s" % (fn, L, suffix), function=fn, repo_srcs=srcs, remove_bodies=rb, models=[],
+                defines=_inc + ["-DH_" + fn, "-DLMAX=%d" % lmax, "-DLCONC=%d" % L, "-DPRIORMAX=%s" % prior], unwind=max(lmax, 128) + 4,
+                what=what + ", message length %d" % L, bounds="message length %d (symbolic content), every 2-way split into update calls, 0..%s whole blocks absorbed before" % (L, prior),
                 functions=fns, tiers=tiers, **kw)
+_rb256 = {"src/lib/hash/bundled/sha2/sha2.c": ["sha256_transf"]}
+_rb512 = {"src/lib/hash/bundled/sha2/sha2.c": ["sha512_transf"]}
+_rb1 = {"src/lib/hash/bundled/sha1/sha1.c": ["SHA1_Transform"]}
+_f256 = ["sha256_init", "sha256_update", "sha256_final"]; _f512 = ["sha512_init", "sha512_update", "sha512_final"]; _f1 = ["SHA1_Init", "SHA1_Update", "SHA1_Final"]
+_p = []
+for L in (0, 1, 55, 56, 63, 64, 65, 119, 120, 128):
+    _p.append(T2("h18p256", _sha2, _rb256, L, "(1u<<22)", "SHA-256 init/update/final block protocol", _f256, tiers=("quick", "thorough") if L in (0, 55, 56, 64, 120) else ("thorough",)))
+    _p.append(T2("h18p1", _sha1, _rb1, L, "0", "SHA-1 Init/Update/Final block protocol", _f1, tiers=("quick", "thorough") if L in (0, 55, 56, 64, 128) else ("thorough",)))
+for L in (0, 1, 111, 112, 127, 128, 129, 240):
+    _p.append(T2("h18p512", _sha2, _rb512, L, "(1u<<21)", "SHA-512 init/update/final block protocol", _f512, tiers=("quick", "thorough") if L in (0, 111, 112, 128) else ("thorough",)))
+_p.append(T2("h18p256", _sha2, _rb256, 8, "0xffffffffu", "SHA-256 protocol after up to 256 GiB of earlier data (width of the length field)", _f256, suffix="-long"))
+_p.append(T2("h18p512", _sha2, _rb512, 8, "0xffffffffu", "SHA-512 protocol after up to 512 GiB of earlier data (width of the length field)", _f512, suffix="-long"))
+_p.append(T2("h18p1", _sha1, _rb1, 8, "0x20000005u", "SHA-1 protocol after 32 GiB of earlier data (64-bit bit count across its two words)", _f1, suffix="-long"))
 SPEC = {
     "explanation": "T1: sha256_transf / sha512_transf / SHA1_Transform equal the FIPS 180-4 compression functions written in the harness (constants "
                    "computed independently) for every chaining value and block (SMT, cvc5).  T2: init/update/final with the compression function "
-                   "replaced by a recorder: for every message up to LMAX bytes, every 3-way split and any number of previously absorbed blocks "
+                   "replaced by a recorder: for message lengths at the block/padding boundaries (concrete per instance, symbolic content), every 2-way split and any number of previously absorbed blocks "
                    "the recorded blocks are exactly the standard's padding of the message and the digest is the big-endian chaining value.",
-    "outside": ["OpenSSL's own SHA code (binary FFI, trusted to implement FIPS 180-4)", "messages longer than LMAX bytes per final segment "
+    "outside": ["OpenSSL's own SHA code (binary FFI, trusted to implement FIPS 180-4)", "message lengths other than the listed ones for the final segment; 3-way and finer splits "
                 "(longer prefixes are covered through the symbolic number of previously absorbed blocks)",
                 "src/lib/hash/openssl/openssl.c glue (type -> EVP_* mapping) is read, not encoded"],
     "assumptions": ["SHA-512/128 is the first 16 bytes of SHA-512: hash_setup's digest_size (C13/C07 harnesses) - the back end computes full SHA-512"],
@@ -23,10 +37,6 @@ SPEC = {
         T1("h18a", _sha2, "sha256_transf == FIPS 180-4 SHA-256 compression", ["sha256_transf"]),
         T1("h18b", _sha2, "sha512_transf == FIPS 180-4 SHA-512 compression", ["sha512_transf"]),
         T1("h18c", _sha1, "SHA1_Transform == FIPS 180-4 SHA-1 compression", ["SHA1_Transform"]),
-        T2("h18p256", "h18p256", _sha2, {"src/lib/hash/bundled/sha2/sha2.c": ["sha256_transf"]}, 70, "(1u<<22)", "SHA-256 init/update/final block protocol", ["sha256_init", "sha256_update", "sha256_final"]),
-        T2("h18p512", "h18p512", _sha2, {"src/lib/hash/bundled/sha2/sha2.c": ["sha512_transf"]}, 134, "(1u<<21)", "SHA-512 init/update/final block protocol", ["sha512_init", "sha512_update", "sha512_final"], mem_gb=12, timeout=1500),
-        T2("h18p1", "h18p1", _sha1, {"src/lib/hash/bundled/sha1/sha1.c": ["SHA1_Transform"]}, 70, "(1u<<26)", "SHA-1 Init/Update/Final block protocol", ["SHA1_Init", "SHA1_Update", "SHA1_Final"]),
-        T2("h18p256-long", "h18p256", _sha2, {"src/lib/hash/bundled/sha2/sha2.c": ["sha256_transf"]}, 8, "0x3ffffffu", "SHA-256 protocol after up to 4 GiB of earlier data (length field width)", ["sha256_update", "sha256_final"]),
-        T2("h18p512-long", "h18p512", _sha2, {"src/lib/hash/bundled/sha2/sha2.c": ["sha512_transf"]}, 8, "0x1ffffffu", "SHA-512 protocol after up to 4 GiB of earlier data (length field width)", ["sha512_update", "sha512_final"]),
+    ] + _p + [
     ],
 }
